@@ -68,6 +68,8 @@ func (e *LEnt) name() string {
 		return fmt.Sprintf("Z%d", e.ID)
 	case "bulk":
 		return fmt.Sprintf("BK%d", e.ID)
+	case "proc":
+		return fmt.Sprintf("P%d", e.ID)
 	}
 	return fmt.Sprintf("F%d", e.ID)
 }
@@ -79,6 +81,9 @@ func (w *LiveWorld) ref(e *LEnt, from int) string {
 	}
 	return w.pkgAlias(e.Pkg) + "." + e.name()
 }
+
+// procEmpty: version v of proc entity e has an empty body.
+func procEmpty(e *LEnt, v int) bool { return v != 9 && (e.Tmpl+v)%3 == 2 }
 
 // EntLine is the one source line declaring entity e at version v.
 func (w *LiveWorld) EntLine(e *LEnt, v int) string {
@@ -96,6 +101,14 @@ func (w *LiveWorld) EntLine(e *LEnt, v int) string {
 			return fmt.Sprintf("var %s int = %d%s", e.name(), t, trailer) // typed declaration with initialiser
 		}
 		return fmt.Sprintf("var %s = %d%s", e.name(), t, trailer)
+	}
+	if e.Kind == "proc" {
+		// a function without result that records its version in a package variable of the
+		// (never edited) infra file; some versions switch it off: the body is empty
+		if procEmpty(e, v) {
+			return fmt.Sprintf("func %s() { }%s", e.name(), trailer)
+		}
+		return fmt.Sprintf("func %s() { PV%d = %d }%s", e.name(), e.ID, t, trailer)
 	}
 	if e.Kind == "bulk" {
 		// many string literals that are new in every version: each is a new key of the
@@ -139,6 +152,10 @@ func (w *LiveWorld) EntLine(e *LEnt, v int) string {
 		} else {
 			body = fmt.Sprintf("a, b := %d, 1; return a*b", t)
 		}
+	}
+	if e.Kind == "method" && e.Tmpl == 4 {
+		// versions that differ in nothing but the field read (same opcodes, same first operands)
+		return fmt.Sprintf("func (t *T%d) %s() int { return t.W%d + %d }%s", e.Recv, e.name(), v, e.ID, trailer)
 	}
 	if e.Kind == "method" {
 		if (e.Tmpl+v)%2 == 0 || v == 9 {
@@ -206,6 +223,12 @@ func (w *LiveWorld) Infra(pkg int) string {
 	var b strings.Builder
 	ln := func(f string, a ...any) { fmt.Fprintf(&b, f+"\n", a...) }
 	ln(w.pkgClause(pkg))
+	for i := range w.Ents {
+		if e := &w.Ents[i]; e.Kind == "proc" && e.Pkg == pkg {
+			ln("var PV%d int", e.ID)
+			ln("func RPV%d() { PV%d = -7 }", e.ID, e.ID) // (goatlang cannot assign to another package's variable)
+		}
+	}
 	if pkg != 0 {
 		ln("var N int")
 		ln("func init() { N = N + 1 }")
@@ -219,7 +242,7 @@ func (w *LiveWorld) Infra(pkg int) string {
 		ln("import %q", w.Pkgs[p].Path)
 	}
 	for t := 1; t <= w.Types; t++ {
-		ln("type T%d struct { A int; B string }", t)
+		ln("type T%d struct { A int; B string; W0 int; W1 int; W2 int; W3 int; W4 int; W5 int; W6 int; W7 int; W8 int; W9 int }", t)
 		ln("var P%d *T%d", t, t)
 	}
 	ln("type Holder struct { F func() int }")
@@ -233,13 +256,18 @@ func (w *LiveWorld) Infra(pkg int) string {
 	for _, id := range w.BM {
 		ln("var BM%d func() int", id)
 	}
+	for i := range w.Ents {
+		if e := &w.Ents[i]; e.Kind == "proc" {
+			ln("var FP%d func()", e.ID)
+		}
+	}
 	for _, id := range w.SF {
 		ln("var H%d *%s", id, map[bool]string{false: "Holder", true: "HolderV"}[w.ent(id).Variadic])
 	}
 	// capture functions: instances first (bound methods need them)
 	ln("func captureInst() {")
 	for t := 1; t <= w.Types; t++ {
-		ln("\tP%d = &T%d{A: %d}", t, t, 10+t)
+		ln("\tP%d = &T%d{A: %d, W1: 1000, W2: 2000, W3: 3000, W4: 4000, W5: 5000, W6: 6000, W7: 7000, W8: 8000, W9: 9000}", t, t, 10+t)
 	}
 	ln("}")
 	ln("func captureRefs() {")
@@ -252,6 +280,11 @@ func (w *LiveWorld) Infra(pkg int) string {
 	for _, id := range w.BM {
 		e := w.ent(id)
 		ln("\tif P%d != nil { BM%d = P%d.%s }", e.Recv, id, e.Recv, e.name())
+	}
+	for i := range w.Ents {
+		if e := &w.Ents[i]; e.Kind == "proc" {
+			ln("\tFP%d = %s", e.ID, w.ref(e, 0))
+		}
 	}
 	ln("}")
 	ln("func bump() {")
@@ -276,6 +309,19 @@ func (w *LiveWorld) Infra(pkg int) string {
 			ln("\thost.Obs(\"zv\", %d, %s)", e.ID, w.ref(e, 0))
 		case "bulk":
 			ln("\thost.Obs(\"bk\", %d, len(%s))", e.ID, w.ref(e, 0))
+		case "proc":
+			pv, reset := fmt.Sprintf("PV%d", e.ID), fmt.Sprintf("RPV%d()", e.ID)
+			if e.Pkg != 0 {
+				pv, reset = w.pkgAlias(e.Pkg)+"."+pv, w.pkgAlias(e.Pkg)+"."+reset
+			}
+			ln("\t%s", reset)
+			ln("\t%s()", w.ref(e, 0))
+			ln("\thost.Obs(\"pc\", %d, %s)", e.ID, pv)
+			ln("\tif FP%d != nil {", e.ID)
+			ln("\t\t%s", reset)
+			ln("\t\tFP%d()", e.ID)
+			ln("\t\thost.Obs(\"pf\", %d, %s)", e.ID, pv)
+			ln("\t}")
 		case "method":
 			ln("\tif P%d != nil { host.Obs(\"im\", %d, P%d.%s()) }", e.Recv, e.ID, e.Recv, e.name())
 		}
@@ -402,6 +448,10 @@ func GenLiveWorld(r *core.PRNG) *LiveWorld {
 			}
 			w.Ents = append(w.Ents, e)
 			funcs = append(funcs, id)
+		}
+		if r.Chance(1, 3) {
+			id++
+			w.Ents = append(w.Ents, LEnt{ID: id, Kind: "proc", Pkg: p, File: r.Intn(w.Pkgs[p].NFiles), Tmpl: r.Intn(3)})
 		}
 		if r.Bool() {
 			id++
